@@ -69,7 +69,7 @@ class PeerModel(object):
 
 
 class ScriptMac(object):
-    """link below the LLC; `cause` in {"disc","none","term","ioerr", None} fires at exchange `cut`"""
+    """link below the LLC; `cause` in {"disc","none","term","ioerr","broken","xmit","proto","garbage", None} fires at exchange `cut`"""
     role = "Initiator"
     rwt = None
 
@@ -93,6 +93,14 @@ class ScriptMac(object):
                 raise nfc.clf.TimeoutError("scripted link disruption")
             if self.cause == "ioerr":
                 raise IOError(5, "scripted host link failure")
+            if self.cause == "broken":         # what a target-side driver raises when the initiator's field goes off
+                raise nfc.clf.BrokenLinkError("scripted link disruption")
+            if self.cause == "xmit":
+                raise nfc.clf.TransmissionError("scripted link disruption")
+            if self.cause == "proto":
+                raise nfc.clf.ProtocolError("scripted link disruption")
+            if self.cause == "garbage":        # octets that are not an LLCP PDU
+                return bytearray(b"\x00")
         frame = pdu.decode(send_data) if send_data else None
         return pdu.encode(self.peer.on_frame(frame, k))
 
